@@ -38,6 +38,8 @@ RecvViolations(c, o) ==
         ELSE {"Q2 a later handler does not see the addresses the header declares (or sees them although the peer is not allowed)"})
   \cup (IF o.ripMatch = (e.remote = "hdr.src") THEN {}
         ELSE {"Q3 a later remote_ip matcher does not decide on the effective source address"})
+  \cup (IF o.lipAsked => (o.lipMatch = (e.local = "hdr.dst")) THEN {}
+        ELSE {"Q3b a later local_ip matcher does not decide on the effective destination address"})
   \cup (IF o.phRemote = e.remote /\ o.phLocal = e.local THEN {}
         ELSE {"Q4 the connection placeholders do not show the effective addresses"})
 
